@@ -177,3 +177,35 @@ Print Assumptions C07_bind_new_unnamed.
 Print Assumptions C07_data_columns.
 Print Assumptions C07_rectangular.
 Print Assumptions C07_normal_engine_binds.
+
+(* ---- the binding of columns to curves is the Python's ------------------------------------------------
+   bind_columns / data_for_curves (and the NULL replacement before them) equal the block of LASFile.read
+   from `data_assigned_to_curves = {...}` to the end of the data-section loop, and the number of columns the
+   normal engine is asked for equals the `reader_n_columns` decision, both re-translated on every run from
+   /repo (py_bind_columns, py_reader_n_columns in Gen/Funcs.v); see Proofs/FuncsPinBind.v for the reading of
+   the numpy operations (bind_rops). *)
+From Coq Require Import ZArith.
+Require Import Funcs FuncsPinBind.
+Theorem C07_bind_current : forall numeq tr strict pn items datas cols L,
+  List.length datas = List.length items ->
+  (forall c, In c cols -> List.length c = L) ->
+  py_bind_columns (bind_rops numeq tr) (combine items datas) cols strict pn
+  = Some (let cols' := null_columns (nulleq numeq pn) strict 0 cols in
+          let items' := bind_columns tr items 0 cols' in
+          combine items' (data_for_curves (List.length items') cols')).
+Proof. exact bind_pin. Qed.
+Theorem C07_n_columns_current : forall (C : Type) sniffed (curves : list C) wrap_in_version wrap_is_yes,
+  py_reader_n_columns (sniffed_z sniffed) curves wrap_in_version wrap_is_yes
+  = Z.of_nat (match sniffed with
+              | None => List.length curves
+              | Some n => if (wrap_in_version && wrap_is_yes) && Nat.ltb n (List.length curves)
+                          then List.length curves else n
+              end).
+Proof. exact n_columns_pin. Qed.
+(* the hypotheses of C07_bind_current are met: two curves, three columns of two samples *)
+Example C07_bind_current_nonvacuous :
+  let cols := [[CNum [49]; CNum [50]]; [CNum [51]; CNaN]; [CStr [97]; CStr [98]]] in
+  List.length ([[]; []] : list (list cell)) = 2%nat /\ (forall c, In c cols -> List.length c = 2%nat).
+Proof. split; [reflexivity|]. intros c [<-|[<-|[<-|[]]]]; reflexivity. Qed.
+Print Assumptions C07_bind_current.
+Print Assumptions C07_n_columns_current.
